@@ -22,13 +22,29 @@ pub trait Round: Copy {
 use core::marker::PhantomData;
 use Sign::*;
 global size_of usize == 8;   // DESIGN.md section 6: usize is 64-bit in all proofs
+impl<T, E> Approximation<T, E> {
+//@@ FN base/approx/map.rs
+//@@ FN float/mul/approx_value.rs
+}
+//@@ SIG float/mul/panic_operate_with_inf.rs
+//@@ FN float/mul/assert_finite_operands.rs
 impl<const B: Word> Repr<B> {
+//@@ FN float/repr/is_infinite.rs
 //@@ SIG float/repr/digits.rs
 }
 impl<R: Round> Context<R> {
 //@@ FN float/repr/is_limited.rs
+//@@ FN float/mul/context_max.rs
+//@@ SIG float/repr/repr_round.rs
+//@@ SIG float/repr/repr_round_ref.rs
 //@@ FN float/add/repr_round_sum.rs
 //@@ FN float/add/repr_add_large_small.rs
+//@@ FN float/add/repr_add_small_large.rs
+//@@ FN float/add/context_add.rs
+//@@ FN float/add/context_sub.rs
+}
+impl<R: Round, const B: Word> FBig<R, B> {
+//@@ FN float/fbig/new.rs
 }
 } // verus!
 fn main() {}
